@@ -23,12 +23,13 @@ MANIFEST = {
 CODES = {30: "result class does not match the error list", 31: "error located outside the code",
          32: "permissive mode recorded a jump-target error", 33: "states differ between strict and permissive mode",
          34: "permissive mode recorded an error strict mode did not", 35: "permissive mode dropped a non-jump error",
+         38: "the reference EVM reaches a jump with a bad destination, yet strict mode reported no error",
          36: "strict mode returned a layout but permissive mode failed or returned a different layout", 37: "panic"}
 
 
 def check(ctx):
     vlib.translate(ctx)
-    vlib.prove(ctx, "props/C17.v", ["VmCases.vo"])
+    vlib.prove(ctx, "props/C17.v", ["VmCases.vo", "SimCases.vo"])
     hb = vlib.harness_bin(ctx)
     rng = ctx.rng
     bw = gen.boundary_words()
@@ -48,6 +49,10 @@ def check(ctx):
     for _ in range(100 if ctx.quick else 1500):
         cfg = gen.random_config(rng)
         progs.setdefault((gen.random_program(rng, bw, n_ops=rng.choice([10, 30]), hostile=0.15), cfg[:5]), "random")
+    # loop-free programs with constant jump targets of every kind under generous limits: here the reference EVM decides
+    # whether a bad jump is reachable, and strict mode must then report an error (code 38)
+    for code in gen.c08_programs(rng, bw, 250 if ctx.quick else 4000):
+        progs.setdefault((code, (30000000, 10, 50, 250, 394)), "reference-jumps")
     keys = list(progs.keys())
     if ctx.replay_in:
         r = json.load(open(ctx.replay_in))["replay"]
@@ -71,9 +76,10 @@ def check(ctx):
                 parts = [p if p != "CHILD-DIED" else ('XPanic "child died"' if k < 2 else 'XA 2 [] [] 0 "" "child died"') for k, p in enumerate(parts)]
             terms.append("mk_c17case %s (mk_limits %d %d %d %d %d 100 None) (%s) (%s) (%s) (%s)" %
                          (vlib.coq_bytes(c), lim[0], lim[1], lim[2], lim[3], lim[4], parts[0], parts[1], parts[2], parts[3]))
-        header = ("From Coq Require Import String.\nFrom SLX Require Import Base gen.ValueSig SymVal VM AbiT VmCases.\n"
+        header = ("From Coq Require Import String.\nFrom SLX Require Import Base gen.ValueSig SymVal VM AbiT VmCases SimCases.\n"
                   "Open Scope string_scope. Open Scope N_scope.\n")
-        bad = vlib.run_cases(ctx, "strict-permissive", header, terms, per_shard=min(100, max(1, len(terms) // 32 + 1)), fn="check_c17")
+        bad = vlib.run_cases(ctx, "strict-permissive", header, terms, per_shard=min(100, max(1, len(terms) // 32 + 1)), fn="check_c17r")
+        decided = vlib.run_cases(ctx, "reference-decided", header, terms, per_shard=min(100, max(1, len(terms) // 32 + 1)), fn="c17_ref_decided")
         disagreements = []
         for idx, code in bad:
             c, lim = keys[idx]
@@ -90,6 +96,8 @@ def check(ctx):
         perm_err = collections.Counter("perm-ok" if l.startswith("XRun true") else "perm-errors" if l.startswith("XRun false") else l[:12] for l in outs["vm1"])
         nontrivial = len([1 for a, b in zip(outs["vm0"], outs["vm1"]) if a.startswith("XRun false") and a.split(" [")[1] != b.split(" [")[1]])
         ctx.coverage.update({"evaluations": len(keys), "distinct_nontrivial": nontrivial,
+                             "reference_decided_bad_jump_reachable": len([1 for _, v in decided if v == 2]),
+                             "reference_decided_no_bad_jump": len([1 for _, v in decided if v == 1]),
                              "traces_validated_against_impl": 2 * len(terms),
                              "input_classes": dict(collections.Counter(progs.values())),
                              "outcomes": {**dict(strict_err), **dict(perm_err)},
